@@ -61,7 +61,12 @@ type C06Case struct {
 	VictimRole string `json:"victim_role,omitempty"`
 	KillAfter  int    `json:"kill_after,omitempty"`
 	MoreAcked  int    `json:"more_acked,omitempty"` // cluster: writes acknowledged by the survivors before the victim restarts
-	Directed   string `json:"directed,omitempty"`
+	// TailRun: after the concurrent scripts, the batch client alone sends this many
+	// further batchable writes (SET / HMSET on one hash / SETEX / DEL), one
+	// acknowledgement at a time, so that they sit in the WAL tail behind the newest
+	// snapshot; kind "tailkill" then kills the idle node from outside
+	TailRun  int    `json:"tail_run,omitempty"`
+	Directed string `json:"directed,omitempty"`
 }
 
 func (cs *C06Case) chain() string {
@@ -76,7 +81,7 @@ func (cs *C06Case) chain() string {
 }
 
 func (cs *C06Case) tag() string {
-	if cs.Kind == "extkill" {
+	if cs.Kind == "extkill" || cs.Kind == "tailkill" {
 		return "external-kill"
 	}
 	if cs.Kind == "dry" {
@@ -98,10 +103,31 @@ type scriptOp struct {
 	op   *Op
 }
 
-func c06Script(client, n int) []scriptOp {
+func c06Script(client, n, tailFrom int) []scriptOp {
 	var out []scriptOp
 	for i := 0; i < n; i++ {
 		u := fmt.Sprintf("u%d_%d", client, i)
+		if client == 4 {
+			// batchable commands (set/setex/del/hmset share one engine write batch per apply
+			// event): one hash, one plain key that is set and deleted, one key with TTL.
+			// Pattern SET,HMSET,HMSET,SETEX,HMSET,DEL: the hash is written repeatedly
+			// behind another key that opened the batch.
+			h, ks, ke := fmt.Sprintf("B%dh", client), fmt.Sprintf("B%ds", client), fmt.Sprintf("B%de", client)
+			if i >= tailFrom {
+				h = fmt.Sprintf("B%dt", client) // the solo tail run creates its own hash
+			}
+			switch i % 6 {
+			case 0:
+				out = append(out, scriptOp{Key: ks, Type: "kvdel", Cmd: "set", Args: []string{u}, Elem: u})
+			case 1, 2, 4:
+				out = append(out, scriptOp{Key: h, Type: "hash", Cmd: "hmset", Args: []string{"f" + strconv.Itoa(i), u}, Elem: "f" + strconv.Itoa(i), Val: u})
+			case 3:
+				out = append(out, scriptOp{Key: ke, Type: "kvttl", Cmd: "setex", Args: []string{"1000000", u}, Elem: u})
+			case 5:
+				out = append(out, scriptOp{Key: ks, Type: "kvdel", Cmd: "del"})
+			}
+			continue
+		}
 		if client == 3 {
 			// HyperLogLog family: two single-writer keys (they stay in the 32-entry write-back cache)
 			out = append(out, scriptOp{Key: fmt.Sprintf("P%d%c", client, 'a'+byte(i%2)), Type: "hll", Cmd: "pfadd", Args: []string{u}, Elem: u})
@@ -214,6 +240,37 @@ func checkAgainstScript(d *Dump, scripts [][]scriptOp) (string, string) {
 			if got > a+u {
 				return "twice", fmt.Sprintf("counter %s = %d but only %d INCRs were acknowledged and %d have an unknown outcome", name, got, a, u)
 			}
+		case "kvdel":
+			// plain key that its single writer sets and deletes: the final state is the one after
+			// the last acknowledged op, or what any unknown-outcome op would leave
+			got, present := d.KV[name]
+			adm := map[string]bool{} // "" = absent
+			cur := ""
+			written := map[string]bool{}
+			for _, so := range k.ops {
+				if so.Cmd == "set" {
+					written[so.Elem] = true
+				}
+				if acked(so) {
+					cur = so.Elem // "" for del
+				} else {
+					adm[so.Elem] = true
+				}
+			}
+			adm[cur] = true
+			if present && !written[got] {
+				return "unwritten", fmt.Sprintf("key %s = %q was never written", name, got)
+			}
+			g := got
+			if !present {
+				g = ""
+			}
+			if !adm[g] {
+				if cur != "" {
+					return "missing", fmt.Sprintf("key %s serves %q (present=%v) but the last acknowledged write on it is SET %q", name, got, present, cur)
+				}
+				return "missing", fmt.Sprintf("key %s = %q although its last acknowledged write is DEL", name, got)
+			}
 		case "kvttl":
 			got, present := d.KV[name]
 			var lastAcked string
@@ -293,6 +350,13 @@ func checkAgainstScript(d *Dump, scripts [][]scriptOp) (string, string) {
 					}
 				}
 			}
+			if card, ok := d.Card[name]; ok && card != int64(len(got)) {
+				cls := "missing"
+				if card > int64(len(got)) {
+					cls = "twice"
+				}
+				return cls, fmt.Sprintf("list %s: LLEN serves %d but LRANGE enumerates %d elements", name, card, len(got))
+			}
 		case "hash", "set", "zset":
 			got := map[string]string{}
 			switch k.typ {
@@ -332,6 +396,14 @@ func checkAgainstScript(d *Dump, scripts [][]scriptOp) (string, string) {
 				if _, in := got[so.Elem]; acked(so) && !in {
 					return "missing", fmt.Sprintf("%s %s lacks acknowledged element %s (%d of %d present)", k.typ, name, so.Elem, len(got), len(k.ops))
 				}
+			}
+			// the counting command must agree with the enumeration (size meta is part of the served state)
+			if card, ok := d.Card[name]; ok && card != int64(len(got)) {
+				cls := "missing"
+				if card > int64(len(got)) {
+					cls = "twice"
+				}
+				return cls, fmt.Sprintf("%s %s: the counting command serves %d but %d elements are enumerated (all acknowledged ones present)", k.typ, name, card, len(got))
 			}
 		}
 	}
@@ -441,20 +513,26 @@ type c06Outcome struct {
 }
 
 type c06Exec struct {
-	c       *vc.Ctx
-	cs      *C06Case
-	cl      *Cluster
-	clock   *Clock
-	hist    *History
-	scripts [][]scriptOp
-	acked   int64
-	stop    int32
-	victim  *Node
-	dead    int32 // victim observed dead
+	c          *vc.Ctx
+	cs         *C06Case
+	cl         *Cluster
+	clock      *Clock
+	hist       *History
+	scripts    [][]scriptOp
+	acked      int64
+	stop       int32
+	victim     *Node
+	dead       int32 // victim observed dead
+	nClients   int
+	leaderIdx  int32
+	othersDone int32 // clients other than the batch client that have finished
 }
 
 func (x *c06Exec) client(ci int, wg *sync.WaitGroup) {
 	defer wg.Done()
+	if ci != 4 {
+		defer atomic.AddInt32(&x.othersDone, 1)
+	}
 	rng := rand.New(rand.NewSource(x.cs.Seed*31 + int64(ci)))
 	c := NewClient(ci, x.cl, x.clock, x.hist, 9*time.Second)
 	defer c.Close()
@@ -465,8 +543,20 @@ func (x *c06Exec) client(ci int, wg *sync.WaitGroup) {
 		if atomic.LoadInt32(&x.stop) != 0 {
 			return
 		}
+		if ci == 4 && i == x.cs.Writes && x.cs.TailRun > 0 {
+			// the tail run starts when every other client has finished (nothing else is in the log behind it)
+			for atomic.LoadInt32(&x.othersDone) < int32(x.nClients-1) && atomic.LoadInt32(&x.stop) == 0 {
+				time.Sleep(5 * time.Millisecond)
+			}
+		}
 		so := &script[i]
 		n := x.cl.Nodes[rng.Intn(len(x.cl.Nodes))]
+		if so.Cmd == "del" && len(x.cl.Nodes) > 1 {
+			// DEL is only accepted by the leader of the partition
+			if l := atomic.LoadInt32(&x.leaderIdx); l >= 0 && x.cl.Nodes[l].Alive() {
+				n = x.cl.Nodes[l]
+			}
+		}
 		op := c.Do(n.ID, so.Key, so.Cmd, so.Args...)
 		if op == nil {
 			// connection refused: the write was not sent
@@ -527,11 +617,12 @@ func (x *c06Exec) violation(sig, summary string, extra map[string]interface{}) {
 func runC06Case(c *vc.Ctx, cs *C06Case, attempt int) (out c06Outcome) {
 	tStart := time.Now()
 	var tScript, tRestart time.Duration
+	var ackedDbg int64
 	defer func() {
 		c.Ev.Max("max_case_wall_s", int64(time.Since(tStart).Seconds()))
 		if os.Getenv("VERIF_DEBUG") != "" {
-			fmt.Printf("C06 case %d %s %s %s/%s k=%d delay=%d fired=%v: script %.1fs restart+settle %.1fs total %.1fs %s\n", cs.Index, cs.Config, cs.Opts.Engine, cs.Kind, cs.tag(), cs.K, cs.DelayMs, out.fired,
-				tScript.Seconds(), tRestart.Seconds(), time.Since(tStart).Seconds(), out.inconclusive)
+			fmt.Printf("C06 case %d %s %s %s/%s k=%d delay=%d fired=%v: script %.1fs restart+settle %.1fs total %.1fs acked=%d %s\n", cs.Index, cs.Config, cs.Opts.Engine, cs.Kind, cs.tag(), cs.K, cs.DelayMs, out.fired,
+				tScript.Seconds(), tRestart.Seconds(), time.Since(tStart).Seconds(), ackedDbg, out.inconclusive)
 		}
 	}()
 	name := fmt.Sprintf("c06-%d-%d", cs.Index, attempt)
@@ -548,10 +639,15 @@ func runC06Case(c *vc.Ctx, cs *C06Case, attempt int) (out c06Outcome) {
 	defer cl.Close()
 	cl.SettleAbortOnDead = true
 	x := &c06Exec{c: c, cs: cs, cl: cl, clock: NewClock(), hist: &History{}}
-	nClients := 4
+	nClients := 5
 	for ci := 0; ci < nClients; ci++ {
-		x.scripts = append(x.scripts, c06Script(ci, cs.Writes))
+		n := cs.Writes
+		if ci == 4 {
+			n += cs.TailRun
+		}
+		x.scripts = append(x.scripts, c06Script(ci, n, cs.Writes))
 	}
+	x.nClients = nClients
 	single := cs.Config == "single"
 	envFP := ""
 	if single && cs.Kind == "failpoint" {
@@ -603,6 +699,7 @@ func runC06Case(c *vc.Ctx, cs *C06Case, attempt int) (out c06Outcome) {
 			}
 		}
 	}
+	atomic.StoreInt32(&x.leaderIdx, int32(leader))
 	var wg sync.WaitGroup
 	for ci := 0; ci < nClients; ci++ {
 		wg.Add(1)
@@ -610,6 +707,20 @@ func runC06Case(c *vc.Ctx, cs *C06Case, attempt int) (out c06Outcome) {
 	}
 	clientsDone := make(chan struct{})
 	go func() { wg.Wait(); close(clientsDone) }()
+	if !single {
+		go func() { // keeps the leader hint (target of DEL) fresh
+			for {
+				select {
+				case <-clientsDone:
+					return
+				case <-time.After(200 * time.Millisecond):
+				}
+				if l := cl.Leader(); l >= 0 {
+					atomic.StoreInt32(&x.leaderIdx, int32(l))
+				}
+			}
+		}()
+	}
 
 	killAt := int64(cs.KillAfter)
 	externalKilled := false
@@ -652,6 +763,7 @@ loop:
 	atomic.StoreInt32(&x.stop, 1)
 	<-clientsDone
 	tScript = time.Since(tStart)
+	ackedDbg = atomic.LoadInt64(&x.acked)
 	defer func() { tRestart = time.Since(tStart) - tScript }()
 	fired := false
 	firedInWindow := false // the raft loop was between publish and WAL persist when the crash point fired
@@ -772,9 +884,9 @@ loop:
 	if fired {
 		c.Ev.Count("crash_fired."+cs.Point, 1)
 		c.Ev.Nontrivial(fmt.Sprintf("%s/k=%d/delay=%d/%s/%s/rockswal=%v/%s/%s", cs.Point, cs.K, cs.DelayMs, cs.Opts.Engine, cs.Config, cs.Opts.UseRocksWAL, cs.VictimRole, cs.Kind))
-	} else if cs.Kind == "extkill" {
+	} else if cs.Kind == "extkill" || cs.Kind == "tailkill" {
 		c.Ev.Count("crash_fired.external-kill", 1)
-		c.Ev.Nontrivial(fmt.Sprintf("extkill/after=%d/%s/%s/rockswal=%v/%s", cs.KillAfter, cs.Opts.Engine, cs.Config, cs.Opts.UseRocksWAL, cs.VictimRole))
+		c.Ev.Nontrivial(fmt.Sprintf("%s/after=%d/tail=%d/snapcount=%d/%s/%s/rockswal=%v/%s", cs.Kind, cs.KillAfter, cs.TailRun, cs.Opts.SnapCount, cs.Opts.Engine, cs.Config, cs.Opts.UseRocksWAL, cs.VictimRole))
 	} else {
 		c.Ev.Count("crash_not_reached."+cs.Point, 1)
 	}
